@@ -101,13 +101,21 @@ func streamForChain(base string, hasK8s, moveBlock bool, evs []hx.Sx) string {
 			bad = true
 		}
 	}
-	switch {
-	case bad:
-		return "k8s-bad-log"
-	case moveBlock:
-		return "chain-move-block"
-	case lenient:
-		return "lenient-json"
+	// a case that contains inputs of several recorded findings goes to the stream named after all of them
+	// ("k8s-bad-log+lenient-json"): each finding's signature accepts its name anywhere in that list and still
+	// demands its own observation
+	var parts []string
+	if bad {
+		parts = append(parts, "k8s-bad-log")
+	}
+	if moveBlock {
+		parts = append(parts, "chain-move-block")
+	}
+	if lenient {
+		parts = append(parts, "lenient-json")
+	}
+	if len(parts) > 0 {
+		return strings.Join(parts, "+")
 	}
 	return base
 }
